@@ -48,8 +48,10 @@ def attr_presence_spec(I, names):
 
     def getattr_obj(I_, st, args, kwargs, node):
         o, name = args
-        if name not in names:
+        if names is not None and name not in names:
             return None
+        # attr:<name>(o) is an opaque object of its own: nothing relates ITS attributes to those of o (in particular the
+        # markers of `o.__call__` are not the markers of o)
         out = []
         for s, b in I_.fork_bool(st, has_fn(name)(o.t)):
             if b:
@@ -170,7 +172,9 @@ class IsSafeCallable(VC):
         super().__init__("C18", "C18.is_safe_callable")
 
     def configure(self, I):
-        attr_presence_spec(I, ("unsafe_callable", "alters_data"))
+        # every constant-name attribute of the opaque callable can be read (present or AttributeError); isinstance tests on
+        # it are uninterpreted predicates, so the contract holds for functions, methods, classes and callable instances alike
+        attr_presence_spec(I, None)
 
     def setup(self, I, st):
         self.env = A.obj(st, S.SandboxedEnvironment, "env")
@@ -195,18 +199,82 @@ class IsSafeCallable(VC):
         def b(t):
             v = model_value(model, t)
             return v if isinstance(v, bool) else False
+        import types as _t
+        from pyvc.ops import isinst_fn
+        kind = "instance"
+        if any(b(isinst_fn(c)(o)) for c in (_t.FunctionType, _t.MethodType, _t.BuiltinFunctionType, _t.BuiltinMethodType)):
+            kind = "function"
+        elif b(isinst_fn(type)(o)):
+            kind = "class"
         return {"unsafe_callable": (b(truthy(attr_fn("unsafe_callable")(o))) if b(has_fn("unsafe_callable")(o)) else None),
-                "alters_data": (b(truthy(attr_fn("alters_data")(o))) if b(has_fn("alters_data")(o)) else None)}
+                "alters_data": (b(truthy(attr_fn("alters_data")(o))) if b(has_fn("alters_data")(o)) else None), "kind": kind,
+                # markers carried by obj.__call__ (a different object): they say nothing about obj
+                "call_marked": bool(b(has_fn("__call__")(o)) and any(
+                    b(has_fn(k)(attr_fn("__call__")(o))) and b(truthy(attr_fn(k)(attr_fn("__call__")(o)))) for k in ("unsafe_callable", "alters_data")))}
 
     def replay(self, w):
-        def f():
+        return replay_is_safe_callable(w)
+
+
+def marked_carriers(marks):
+    """live callables of every kind carrying the given markers {name: value}: plain function, bound method (marker on the
+    function), callable instance (marker on the instance / on its class), functools.partial, class"""
+    import functools
+
+    def f(*a, **k):
+        return 1
+
+    class K:
+        def m(self, *a, **k):
             return 1
-        for k in ("unsafe_callable", "alters_data"):
-            if w.get(k) is not None:
-                setattr(f, k, w[k])
-        got = S.SandboxedEnvironment().is_safe_callable(f)
-        want = not (bool(w.get("unsafe_callable")) or bool(w.get("alters_data")))
-        return (bool(got) != want, f"is_safe_callable(f) with unsafe_callable={w.get('unsafe_callable')}, alters_data={w.get('alters_data')} = {got}; documented: {want}")
+
+    class OnInstance:
+        def __call__(self, *a, **k):
+            return 1
+
+    class OnClass:
+        def __call__(self, *a, **k):
+            return 1
+
+    class AClass:
+        pass
+
+    inst = OnInstance()
+    part = functools.partial(f, 1)
+    for k, v in marks.items():
+        setattr(f, k, v)
+        setattr(K.m, k, v)
+        setattr(inst, k, v)
+        setattr(OnClass, k, v)
+        setattr(part, k, v)
+        setattr(AClass, k, v)
+    return {"function": [("plain function", f), ("bound method", K().m)],
+            "instance": [("callable instance, marker on the instance", inst), ("callable instance, marker on its class", OnClass()),
+                         ("functools.partial", part)],
+            "class": [("class", AClass)]}
+
+
+def replay_is_safe_callable(w):
+    marks = {k: w[k] for k in ("unsafe_callable", "alters_data") if w.get(k) is not None}
+    want = not any(bool(v) for v in marks.values())
+    env = S.SandboxedEnvironment()
+    carriers = marked_carriers(marks)
+    order = [w.get("kind", "instance")] + [k for k in carriers if k != w.get("kind", "instance")]
+    probs = []
+    if w.get("call_marked") and not marks:
+        class FlaggedCall:
+            @S.unsafe
+            def __call__(self, *a, **k):
+                return 1
+        got = env.is_safe_callable(FlaggedCall())
+        if bool(got) is not True:
+            probs.append(f"is_safe_callable(instance without markers whose __call__ function is flagged) = {got}; documented default looks at the markers of the object itself: True")
+    for kind in order:
+        for desc, c in carriers[kind]:
+            got = env.is_safe_callable(c)
+            if bool(got) != want:
+                probs.append(f"is_safe_callable({desc}) with {marks} = {got}; documented: {want}")
+    return (bool(probs), "; ".join(probs[:3]) if probs else f"is_safe_callable agrees with the documentation for every carrier of {marks}")
 
 
 class UnsafeDecorator(VC):
@@ -542,6 +610,24 @@ def native_composition(task, tier, seed):
             ran.append("fine")
             return "ok"
 
+    class Action:  # Django style: the callable object itself is flagged, on the class
+        alters_data = True
+
+        def __call__(self, *a, **k):
+            ran.append("action")
+
+    class Hook:
+        def __call__(self, *a, **k):
+            ran.append("hook")
+            return "ok"
+
+    flagged_hook = Hook()
+    flagged_hook.unsafe_callable = True
+    import functools
+    part = functools.partial(plain)
+    part.alters_data = True
+    ok_part = functools.partial(Obj().fine)
+
     class Deny(S.SandboxedEnvironment):
         def is_safe_callable(self, obj):
             return False
@@ -550,7 +636,8 @@ def native_composition(task, tier, seed):
     for envcls in (S.SandboxedEnvironment, S.ImmutableSandboxedEnvironment, Deny):
         env = envcls()
         ctx = env.from_string("").new_context({})
-        for name, fn, safe in (("plain", plain, True), ("marked", marked, False), ("django", django, False), ("method", Obj().method, False), ("fine", Obj().fine, True)):
+        for name, fn, safe in (("plain", plain, True), ("marked", marked, False), ("django", django, False), ("method", Obj().method, False), ("fine", Obj().fine, True),
+                               ("action", Action(), False), ("hook", flagged_hook, False), ("hook", Hook(), True), ("plain", part, False), ("fine", ok_part, True)):
             del ran[:]
             want_run = safe and envcls is not Deny
             try:
@@ -568,7 +655,7 @@ def native_composition(task, tier, seed):
     if bad:
         out.append(Res(nm, "refuted", "table", 0, f"{bad[:4]}", "table", {"cases": [list(map(str, b)) for b in bad[:4]]}))
     else:
-        out.append(Res(nm, "discharged", "table", 0, "3 environments x 5 callables: refused ones never ran, allowed ones ran once", "table"))
+        out.append(Res(nm, "discharged", "table", 0, "3 environments x 10 callables (functions, methods, callable instances flagged on instance / class, partials): refused ones never ran, allowed ones ran once", "table"))
     return out
 
 
@@ -585,7 +672,8 @@ META = {
     "explanation": "Runtime gate of sandboxed calls: the real SandboxedEnvironment.call (symbolic *args/**kwargs of any size, is_safe_callable "
                    "abstract so that overriding checks are covered) reaches context.call only after the check returned True and raises "
                    "SecurityError otherwise without calling anything; the default is_safe_callable is False exactly for callables marked "
-                   "unsafe_callable / alters_data; the decorator sets that mark; Context.call invokes exactly the callable (or its marked "
+                   "unsafe_callable / alters_data ON THE OBJECT ITSELF (attribute reads of the opaque callable are modelled so that obj.__call__ is a "
+                   "different object with unrelated attributes: function, method, class, callable instance and partial alike); the decorator sets that mark; Context.call invokes exactly the callable (or its marked "
                    "__call__) once with the documented injected first argument. The compiler half (every template call is emitted as "
                    "environment.call) is discharged by the emission obligations of this module when present.",
     "assumptions": ["A7 await transparent", "callables invoked by safe callables or by filters are outside the statement (DESIGN C18 gap)",
